@@ -7,6 +7,7 @@ import itertools
 import json
 import os
 import pickle
+import random
 import re
 import shutil
 import subprocess
@@ -25,6 +26,15 @@ CANON_SRC = (HERE / "catalog_canon.py").read_text()
 DOC = re.compile(r"[A-Za-z0-9_-]+")
 SMALL_ALPHABET = ["a", "Z", "0", "-", "_", "/", ".", " ", "é", "\n"]
 PYPROJECT = "[tool.pytask.ini_options]\n"
+
+
+# entry names that are DIFFERENT strings but easy to identify by a lossy normalisation (unicode normal forms, compatibility
+# characters, case, surrounding white space, separator spellings): different entries must never share a location
+CONFUSABLE_ENTRIES = [
+    ["\u00e9", "e\u0301"], ["\u00c5", "\u212b", "A\u030a"], ["\ufb01", "fi"], ["\u2460", "1"], ["\uff21", "A"],
+    ["\uac00", "\u1100\u1161"], ["\u00f1", "n\u0303"], ["x", "x ", " x", "x\t", "x\n"], ["data", "Data", "DATA"],
+    ["\u00df", "ss", "\u1e9e"], ["a/b", "a\\b", "a//b", "a/./b", "a/b/"], ["\u03a9", "\u2126"], ["\u0130", "i\u0307", "i"],
+]
 
 
 def doc_ok(name: str) -> bool:
@@ -138,6 +148,92 @@ def random_value(rng, depth: int = 0):
         return {rng.choice([rng.randint(0, 50), rand_unicode(rng, 3), (1, rng.randint(0, 9)), None]): random_value(rng, depth + 1)
                 for _ in range(rng.randint(0, 4))}
     return frozenset(rng.randint(0, 100) for _ in range(rng.randint(0, 5)))
+
+
+def twinnable_value(rng, depth: int = 0):
+    """A value that has a Python-equal but different sibling (see `equal_twin`)."""
+    kinds = ["small", "small", "int", "float_int", "zero", "bool", "complex"]
+    if depth < 2:
+        kinds += ["list", "tuple", "dict", "dict_order", "dict_key"]
+    k = rng.choice(kinds)
+    if k == "small":
+        return rng.choice([0, 1])
+    if k == "int":
+        return rng.randint(-10**6, 10**6)
+    if k == "float_int":
+        return float(rng.randint(-1000, 1000))
+    if k == "zero":
+        return rng.choice([0.0, -0.0])
+    if k == "bool":
+        return rng.random() < 0.5
+    if k == "complex":
+        return complex(rng.randint(-5, 5), 0)
+    if k == "list":
+        return [random_value(rng, 2) for _ in range(rng.randint(0, 2))] + [twinnable_value(rng, depth + 1)]
+    if k == "tuple":
+        return (twinnable_value(rng, depth + 1), *[random_value(rng, 2) for _ in range(rng.randint(0, 2))])
+    if k == "dict":
+        return {"k": twinnable_value(rng, depth + 1), rand_unicode(rng, 2) + "_": random_value(rng, 2)}
+    if k == "dict_order":
+        return {key: rng.randint(0, 9) for key in rng.sample(["a", "b", "c", "d", 7, None], rng.randint(2, 4))}
+    return {rng.choice([0, 1]): rand_unicode(rng, 3), "z": rng.randint(0, 9)}
+
+
+def equal_twin(rng, v):
+    """A value w with `w == v` in Python that is nevertheless a different value (other type, other sign of zero, other dict
+    order): storing w over v must replace v. Returns v itself if it knows no such sibling."""
+    if isinstance(v, bool):
+        return rng.choice([int(v), float(v)])
+    if isinstance(v, int):
+        opts = [float(v), complex(v, 0)] if abs(v) < 2**53 else []
+        if v in (0, 1):
+            opts.append(bool(v))
+        return rng.choice(opts) if opts else v
+    if isinstance(v, float):
+        if v == 0.0:
+            return rng.choice([-v, 0, False]) if rng.random() < 0.7 else -v
+        if v == v and abs(v) < 2**53 and v == int(v):
+            return int(v)
+        return v
+    if isinstance(v, complex):
+        return v.real if v.imag == 0 else v
+    if isinstance(v, (list, tuple)):
+        idx = [i for i, x in enumerate(v) if canon(equal_twin(random.Random(0), x)) != canon(x)]
+        if not idx:
+            return v
+        i = rng.choice(idx)
+        w = list(v)
+        w[i] = equal_twin(rng, v[i])
+        return type(v)(w)
+    if isinstance(v, dict):
+        items = list(v.items())
+        if len(items) >= 2 and rng.random() < 0.6:
+            return dict(reversed(items))
+        for j, (k, x) in enumerate(items):
+            kt = equal_twin(rng, k) if isinstance(k, (bool, int, float)) else k
+            if canon(kt) != canon(k):
+                items[j] = (kt, x)
+                return dict(items)
+            xt = equal_twin(rng, x)
+            if canon(xt) != canon(x):
+                items[j] = (k, xt)
+                return dict(items)
+        return dict(reversed(items)) if len(items) >= 2 else v
+    return v
+
+
+def twin_pair(rng):
+    """(v, w): w == v, canon(w) != canon(v)."""
+    for _ in range(50):
+        v = twinnable_value(rng)
+        w = equal_twin(rng, v)
+        try:
+            same = bool(w == v)
+        except Exception:  # noqa: BLE001
+            same = False
+        if same and canon(w) != canon(v):
+            return v, w
+    return 1, True
 
 
 def b64(v) -> str:
@@ -308,6 +404,8 @@ def random_trace(rng, tid: int, with_f5: bool):
     if rng.random() < 0.3:
         cats.append(rng.choice(["/abs", ".hidden", "é", ""]))      # rejected names take part too
     entries = rng.sample(["x", "X", "", "a/b", "é", "\n", "x" * 500, rand_unicode(rng, 6), rand_unicode(rng, 12), "y"], rng.randint(2, 5))
+    if rng.random() < 0.4:
+        entries = list(dict.fromkeys(entries + rng.choice(CONFUSABLE_ENTRIES)))
     values = [random_value(rng) for _ in range(rng.randint(3, 8))]
     sessions = []
     for _ in range(rng.randint(2, 4)):
@@ -319,7 +417,34 @@ def random_trace(rng, tid: int, with_f5: bool):
             else:
                 ops.append({"k": "load", "cat": cps(c), "e": cps(e)})
         sessions.append(ops)
-    return {"id": f"t{tid}", "cats": [cps(c) for c in cats], "values_b64": [b64(v) for v in values], "sessions": sessions, "f5": with_f5}
+    # successive values that are Python-equal but different (1 / True / 1.0, 0.0 / -0.0, dict order) through ONE entry of a
+    # documented catalog: once across a session boundary, once within a session — the later value must be what is loaded
+    ntw = 0
+    for where in ("across", "within"):
+        if rng.random() < 0.75:
+            v, w = twin_pair(rng)
+            values += [v, w]
+            iv, iw = len(values) - 2, len(values) - 1
+            c, e = cps(rng.choice(cats[:3])), cps(rng.choice(entries))
+            k = rng.randrange(len(sessions) - 1)
+            if where == "across":
+                sessions[k].append({"k": "save", "cat": c, "e": e, "vi": iv})
+                sessions[k + 1][:0] = [{"k": "save", "cat": c, "e": e, "vi": iw}, {"k": "load", "cat": c, "e": e}]
+            else:
+                sessions[k] += [{"k": "save", "cat": c, "e": e, "vi": iv}, {"k": "save", "cat": c, "e": e, "vi": iw},
+                                {"k": "load", "cat": c, "e": e}]
+                sessions[k + 1].append({"k": "load", "cat": c, "e": e})
+            ntw += 1
+    # a mutable value loaded several times in one session (the worker modifies every loaded object in place afterwards) and
+    # again in the next session
+    if rng.random() < 0.75:
+        values.append(rng.choice([[3, 1, 2], {"k": [1, 2]}, [random_value(rng, 2), [random_value(rng, 2)]], ([1], {"a": {}})]))
+        c, e = cps(rng.choice(cats[:3])), cps(rng.choice(entries))
+        k = rng.randrange(len(sessions) - 1)
+        sessions[k] += [{"k": "save", "cat": c, "e": e, "vi": len(values) - 1}] + [{"k": "load", "cat": c, "e": e}] * 3
+        sessions[k + 1][:0] = [{"k": "load", "cat": c, "e": e}] * 2
+    return {"id": f"t{tid}", "cats": [cps(c) for c in cats], "values_b64": [b64(v) for v in values], "sessions": sessions, "f5": with_f5,
+            "twins": ntw}
 
 
 def s_of(cp):
@@ -423,6 +548,7 @@ def check_trace(ctx, t: dict, proj: Path, res: list[list[dict]]):
     ctx.case(["trace", t["cats"], t["sessions"], t["values_b64"]], nhit >= 1 and len(t["sessions"]) >= 2,
              {"catalogs": sorted(names)[:4], "sessions": len(t["sessions"]), "loads": nloads})
     ctx.dist[f"trace:loads_with_prior_save={min(nhit, 5)}"] += 1
+    ctx.dist["trace:equal_but_different_resaves"] += t.get("twins", 0)
     if ctx.use_model:
         d = ctx.driver()
         ans = driver_batch(d, model_lines)
@@ -483,6 +609,7 @@ for _tag, _cat, _entry in {specs!r}:
         @task(id=tag, kwargs={{"x": CATS[tuple(cat)][_s(entry)]}})
         def consume(x, out: Annotated[Path, Product] = Path(__file__).parent / ("out_" + tag + ".txt")):
             _log({{"k": "cons", "tag": tag, "cat": cat, "entry": entry, "canon": canon(x)}})
+            scramble(x)      # this task's copy; other dependents must still receive the value as returned
             out.write_text("done")
     _make()
 '''
@@ -505,11 +632,21 @@ def random_e2e(rng, pid: int, f5: bool):
     if f5:
         cats = [base, f"q/../{base}"]
     entries = rng.sample(["x", "X", "", "a/b", "é", "val ue", "x" * 300, "ünï", "y.pkl", "0"], 2 if f5 else rng.randint(2, 4))
+    if not f5 and rng.random() < 0.35:
+        entries = rng.choice(CONFUSABLE_ENTRIES)[:3]
     pairs = [(c, e) for c in cats for e in entries]
     rng.shuffle(pairs)
     pairs = pairs[: (4 if f5 else rng.randint(3, 7))]
+    v1, v2 = [], []
+    for _ in pairs:
+        if rng.random() < 0.5:          # build 3 returns a value that is == the stored one but a different value
+            a, b = twin_pair(rng)
+        else:
+            a, b = random_value(rng), random_value(rng)
+        v1.append(b64(a))
+        v2.append(b64(b))
     return {"id": f"e{pid}", "cats": [cps(c) for c in cats], "pairs": [[cps(c), cps(e)] for c, e in pairs],
-            "v1": [b64(random_value(rng)) for _ in pairs], "v2": [b64(random_value(rng)) for _ in pairs],
+            "v1": v1, "v2": v2,
             "hashseeds": [rng.randrange(1, 1 << 16) for _ in range(3)], "f5": f5, "split": rng.randint(1, max(1, len(pairs) - 1))}
 
 
@@ -524,7 +661,8 @@ def run_e2e(ctx, base: Path, case: dict):
     cons1 = [[f"c1_{i}", c, e] for i, (c, e) in enumerate(pairs)]
     write_module(proj / "task_a.py", log, cats, producers=specA)
     write_module(proj / "task_b.py", log, cats, producers=specB, consumers=cons1[::2])
-    write_module(proj / "task_c.py", log, cats, consumers=cons1[1::2])
+    # every second entry has two dependents in the first build (task_b and task_c), each modifying its own copy
+    write_module(proj / "task_c.py", log, cats, consumers=cons1[1::2] + [[f"d1_{i}", c, e] for i, (c, e) in enumerate(pairs)][::2])
     builds, logs = [], []
 
     def build(i):
@@ -592,10 +730,18 @@ def campaign(ctx):
     base = common.scratch_dir("c20")
     try:
         rng = ctx.rng
+        import time as _t
+        t_last = [_t.time()]
+        phases = ctx.extra.setdefault("phase_s", {})
+
+        def lap(name):
+            phases[name] = round(phases.get(name, 0) + _t.time() - t_last[0], 1)
+            t_last[0] = _t.time()
         # 0 corpus first: stored witnesses (known findings, minimised past failures)
         for f in sorted((common.VERIF / "corpus" / "C20").glob("*.json")):
             replay_one(ctx, json.loads(f.read_text())["input"])
             ctx.dist["corpus"] += 1
+        lap("corpus")
         model_rows: list = []
         # 1a exhaustive small scope (+ corpus witnesses of F5)
         names = list(small_names(3)) + ["a/b", "a b", "a/../b", "b", "a\n", "a.b"]
@@ -603,25 +749,35 @@ def campaign(ctx):
         proj = new_project(base, "names_small")
         check_names(ctx, proj, names, ["e", "é/..\n"], [rng.randrange(1, 1 << 16), rng.randrange(1, 1 << 16)], "small", model_rows)
         ctx.exhaustive = True
+        lap("names_small")
         # 1b random unicode / long / separators / case-only differences, more entry names, 3 sessions
         rnames = list(dict.fromkeys(random_names(rng, ctx.scale(150, 1500))))
         proj2 = new_project(base, "names_random")
         check_names(ctx, proj2, rnames, list(dict.fromkeys(random_entry_names(rng, ctx.scale(8, 30)))),
                     [rng.randrange(1, 1 << 16) for _ in range(3)], "random", model_rows)
+        lap("names_random")
+        # 1c entry names that differ only by unicode normalisation / case / white space / separator spelling
+        proj3 = new_project(base, "names_confusable")
+        check_names(ctx, proj3, ["c", "C", "c-" + str(rng.randrange(100))], list(dict.fromkeys(sum(CONFUSABLE_ENTRIES, []))),
+                    [rng.randrange(1, 1 << 16) for _ in range(2)], "confusable", model_rows)
+        lap("names_confusable")
         compare_names_with_model(ctx, model_rows)
+        lap("names_model")
         # 2 save/load traces over sessions
-        nt = ctx.scale(60, 600)
+        nt = ctx.scale(48, 600)
         traces = [random_trace(rng, i, with_f5=(i % 6 == 5)) for i in range(nt)]
         projs, results = run_traces(ctx, base, traces, [rng.randrange(1, 1 << 16) for _ in range(4)])
         for t in traces:
             check_trace(ctx, t, projs[t["id"]], results[t["id"]])
+        lap("traces")
         # 3 end to end
-        ne = ctx.scale(10, 60)
+        ne = ctx.scale(8, 60)    # quick: one wave of 8 parallel projects
         cases = [random_e2e(rng, i, f5=(i == ne - 1)) for i in range(ne)]
         with ThreadPoolExecutor(max_workers=8) as ex:
             outs = list(ex.map(lambda c: run_e2e(ctx, base, c), cases))
         for c, (proj, builds, logs) in zip(cases, outs):
             check_e2e(ctx, c, builds, logs)
+        lap("e2e")
     finally:
         shutil.rmtree(base, ignore_errors=True)
 
